@@ -108,31 +108,58 @@ func (f *Frame) counterLowerBound(li *loopInfo, phi *ssa.Phi) (string, bool) {
 			lo = t
 		}
 	}
-	return lo, lo != ""
+	if lo == "" {
+		return "", false
+	}
+	// only for counters the loop itself bounds (some comparison in the loop involves the counter or its
+	// increment); a free-running counter may wrap, and "counter >= start" would then be a false alarm
+	guarded := false
+	for b := range li.body {
+		for _, ins := range b.Instrs {
+			c, ok := ins.(*ssa.BinOp)
+			if !ok {
+				continue
+			}
+			switch c.Op {
+			case token.LSS, token.LEQ, token.GTR, token.GEQ, token.NEQ, token.EQL:
+			default:
+				continue
+			}
+			for _, opd := range []ssa.Value{c.X, c.Y} {
+				if opd == ssa.Value(phi) {
+					guarded = true
+				}
+				if inc, ok := opd.(*ssa.BinOp); ok && inc.Op == token.ADD && inc.X == ssa.Value(phi) {
+					guarded = true
+				}
+			}
+		}
+	}
+	return lo, guarded
 }
 
 type Frame struct {
-	g        *Gen
-	fn       *ssa.Function
-	vals     map[ssa.Value]*SVal
-	clos     map[ssa.Value]*Closure
-	contract *Contract
-	entry    *State
-	rets     []retInfo
-	loops    map[*ssa.BasicBlock]*loopInfo
-	loopList []*loopInfo
-	isTop    bool
-	depth    int
-	defers   []*ssa.Defer
-	outReach map[*ssa.BasicBlock]string
-	outState map[*ssa.BasicBlock]*State
-	curBlock *ssa.BasicBlock
-	curIdx   int
-	curReach string
-	curState *State
+	g            *Gen
+	fn           *ssa.Function
+	vals         map[ssa.Value]*SVal
+	clos         map[ssa.Value]*Closure
+	contract     *Contract
+	entry        *State
+	rets         []retInfo
+	loops        map[*ssa.BasicBlock]*loopInfo
+	loopList     []*loopInfo
+	isTop        bool
+	depth        int
+	defers       []*ssa.Defer
+	outReach     map[*ssa.BasicBlock]string
+	outState     map[*ssa.BasicBlock]*State
+	curBlock     *ssa.BasicBlock
+	curIdx       int
+	curReach     string
+	curState     *State
 	callsiteHits map[*Callsite]int
-	isInit   bool   // executing a package initializer (calls to other initializers are skipped)
-	label    string // prefix for names
+	isInit       bool   // executing a package initializer (calls to other initializers are skipped)
+	label        string // prefix for names
 	callerScopes []*modScope
 	fnScope      *modScope
 	// region support
@@ -140,11 +167,11 @@ type Frame struct {
 	regionActive         bool
 	region               *Region
 	callsiteWhy          map[*Callsite]string
-	parent               *Frame            // the frame this one is inlined into
+	parent               *Frame              // the frame this one is inlined into
 	privAllocs           map[*ssa.Alloc]bool // local variables whose address never leaves the function (cached)
 	privDone             bool
 	regionExits          []retInfo
-	nameOverride map[string]*SVal
+	nameOverride         map[string]*SVal
 }
 
 func (g *Gen) newFrame(fn *ssa.Function, top bool) *Frame {
@@ -416,6 +443,7 @@ func (f *Frame) run(entryReach string, st *State) {
 						env := f.specEnv(f.outState[p], f.entry).asGoal()
 						env.phiSub = sub
 						env.at = li.header
+						env.curParams = true
 						env.loopPre = li.preSt
 						g.beginGoal()
 						t := env.evalBool(inv.E)
@@ -443,6 +471,7 @@ func (f *Frame) cutLoop(li *loopInfo, phiIn map[*ssa.Phi]*SVal) {
 			env := f.specEnv(f.curState, f.entry).asGoal()
 			env.phiSub = phiIn
 			env.at = li.header
+			env.curParams = true
 			env.loopPre = li.preSt
 			g.beginGoal()
 			t := env.evalBool(inv.E)
@@ -456,6 +485,7 @@ func (f *Frame) cutLoop(li *loopInfo, phiIn map[*ssa.Phi]*SVal) {
 		env := f.specEnv(f.curState, f.entry)
 		env.phiSub = phiIn
 		env.at = li.header
+		env.curParams = true
 		env.loopPre = li.preSt
 		var items []*modItem
 		for _, m := range li.spec.Modifies {
@@ -522,6 +552,7 @@ func (f *Frame) cutLoop(li *loopInfo, phiIn map[*ssa.Phi]*SVal) {
 		for _, inv := range li.spec.Invariants {
 			env := f.specEnv(f.curState, f.entry).asAssume(f.curReach)
 			env.at = li.header
+			env.curParams = true
 			env.loopPre = li.preSt
 			g.assume(f.curReach, env.evalBool(inv.E))
 		}
@@ -758,6 +789,18 @@ func (f *Frame) checkCallsites(ci ssa.CallInstruction) {
 		env := f.specEnv(f.curState, f.entry).asGoal()
 		env.at = f.curBlock
 		env.atIdx = f.curIdx
+		env.curParams = true
+		// innermost cut loop around the call: iter(x) and pre(x) refer to its iteration head / entry
+		var inner *loopInfo
+		for _, li := range f.loops {
+			if li != nil && li.body[f.curBlock] && li.headSt != nil && (inner == nil || len(li.body) < len(inner.body)) {
+				inner = li
+			}
+		}
+		if inner != nil {
+			env.loopHead = inner.headSt
+			env.loopPre = inner.preSt
+		}
 		// arguments of the call are available as arg0, arg1, ...
 		for i, a := range ci.Common().Args {
 			func() {
@@ -932,6 +975,7 @@ func (f *Frame) exec(ins ssa.Instruction) {
 		v := f.coerce(f.val(x.Val), x.Val.Type())
 		et := x.Addr.Type().Underlying().(*types.Pointer).Elem()
 		f.checkStore(p, et, x.Pos())
+		f.checkImmutable(x, p)
 		g.store(f.curState, p, et, v)
 	case *ssa.MapUpdate:
 		f.mapUpdate(x)
@@ -1193,6 +1237,7 @@ func (f *Frame) convert(v *SVal, t types.Type, pos token.Pos) *SVal {
 	case fk == KSlice && tk == KString:
 		g.usedStr = true
 		h := g.heapGet(f.curState, elemFam(tByte), g.elemHeapSort(tByte))
+		g.logStrOfBytes(v.Sub[0].Term, v.Sub[1].Term, v.Sub[2].Term)
 		return scalar(t, KString, sApp("str_of_bytes", sSel(h, v.Sub[0].Term), v.Sub[1].Term, v.Sub[2].Term))
 	case fk == KString && tk == KSlice:
 		g.usedStr = true
@@ -1779,4 +1824,62 @@ func (f *Frame) keepLoopInvariantLocals(li *loopInfo, pre, post *State) {
 			g.store(post, p, et, g.load(pre, p, et))
 		}()
 	}
+}
+
+// checkImmutable: "immutable T" in the contract of the function being verified - an object of struct type T
+// may only be written while it is new in the current loop iteration (or, outside loops, new in this call):
+// once it has existed at an iteration head it may have been published to other goroutines.
+func (f *Frame) checkImmutable(x *ssa.Store, p *SVal) {
+	top := f
+	for top.parent != nil {
+		top = top.parent
+	}
+	if top.contract == nil || len(top.contract.Immutable) == 0 {
+		return
+	}
+	g := f.g
+	hit := ""
+	consider := func(t types.Type) {
+		if n, ok := types.Unalias(t).(*types.Named); ok {
+			for _, im := range top.contract.Immutable {
+				if n.Obj().Name() == im {
+					hit = im
+				}
+			}
+		}
+	}
+	var walk func(v ssa.Value, depth int)
+	walk = func(v ssa.Value, depth int) {
+		if depth > 8 {
+			return
+		}
+		if pt, ok := v.Type().Underlying().(*types.Pointer); ok {
+			consider(pt.Elem())
+		}
+		switch a := v.(type) {
+		case *ssa.FieldAddr:
+			walk(a.X, depth+1)
+		case *ssa.IndexAddr:
+			walk(a.X, depth+1)
+		}
+	}
+	walk(x.Addr, 0)
+	if hit == "" {
+		return
+	}
+	// reference watermark: head of the innermost cut loop of the top-level function, else function entry
+	ref := g.heapGet(g.entry, allocHeap, allocSort)
+	if f == top {
+		var inner *loopInfo
+		for _, li := range f.loops {
+			if li != nil && li.body[f.curBlock] && li.headSt != nil && (inner == nil || len(li.body) < len(inner.body)) {
+				inner = li
+			}
+		}
+		if inner != nil {
+			ref = g.heapGet(inner.headSt, allocHeap, allocSort)
+		}
+	}
+	o := f.oblige("immutable", sApp("bvuge", objOf(p.Term), ref), x.Pos(), "write to an object of immutable type "+hit+" that is not new in this iteration")
+	o.Clause = "immutable " + hit
 }
